@@ -1080,6 +1080,7 @@ def uniform_partition_fromgrid(grid, min_pt=None, max_pt=None):
         min_pt = np.atleast_1d(min_pt)
         min_pt = {i: float(v) for i, v in enumerate(min_pt)}
     else:
+        min_pt = dict(min_pt)  # do not modify the input
         min_pt.update({i: None for i in range(grid.ndim)
                        if i not in min_pt and i - grid.ndim not in min_pt})
 
@@ -1089,6 +1090,7 @@ def uniform_partition_fromgrid(grid, min_pt=None, max_pt=None):
         max_pt = np.atleast_1d(max_pt)
         max_pt = {i: float(v) for i, v in enumerate(max_pt)}
     else:
+        max_pt = dict(max_pt)  # do not modify the input
         max_pt.update({i: None for i in range(grid.ndim)
                       if i not in max_pt and i - grid.ndim not in max_pt})
 
